@@ -42,6 +42,13 @@ def gen_cases(tier, seed):
                       "smat": smats[rng.integers(len(smats))], "pmat": ["P", "centring"][rng.integers(2)], "fcclass": ["sym", "arbitrary"][rng.integers(2)],
                       "_threads": [1, 2, 3, 5, 7, 16][int(rng.integers(6))], "nac": [None, "wang"][rng.integers(2)] if name in crystals.POLAR else None, "full": bool(rng.integers(2)) or lang == "Py", "lang": lang,  # the Python derivative asserts full layout
                       "seed": int(rng.integers(10 ** 6)), "_cost": 3})
+        if i % 3 == 2:
+            # isotropically multiplied supercell + symmetric model: the only combination in which phonopy's little-group symmetrisation of the velocities is
+            # legitimate and therefore left switched on (random supercells almost never produced it: 0 of 60 cases at seed 1)
+            n_ = 2 if nu * 8 <= 64 else 1
+            cases[-1].update(smat=[[n_, 0, 0], [0, n_, 0], [0, 0, n_]], fcclass="sym")
+            if name in crystals.POLAR and rng.integers(3) > 0:
+                cases[-1]["nac"] = "wang"
     for i in range(24 if tier == "quick" else 160):
         name = names[i % len(names)]
         cases.append({"kind": "grun", "crystal": {"name": name, "order": "asis"}, "g": float(rng.uniform(0.3, 2.5)), "strain": float(rng.uniform(0.001, 0.03)),
@@ -81,6 +88,15 @@ def run_case(c):
         L = np.array(pr.cell)
         feat = dict(fcclass=c["fcclass"], nac=c["nac"], lang=c["lang"], full=c["full"], fc_permutation_symmetric=bool(c["fcclass"] == "sym"))
         qs = [rng.uniform(-0.5, 0.5, 3), rng.uniform(-0.5, 0.5, 3), np.array([0.5, 0.0, 0.0]), np.array([0.25, 0.25, 0.0]), np.array([0.1, 0.1, 0.1])]
+        # q outside the first zone (band paths routinely leave it, e.g. the fcc U point): D(q) with Wang's term is NOT periodic in q, so folding q
+        # anywhere (derivative, little group used to symmetrise velocities) is only legitimate for the periodic part. Templates lie on the usual
+        # mirror/rotation-invariant sets of the reduced reciprocal coordinates so that the FOLDED point has a little group the unfolded one may lack
+        x_, y_ = rng.uniform(0.05, 0.45, 2)
+        tmpl = [[x_, y_, 0.0], [x_, x_, y_], [x_, y_, x_ + y_], [x_, y_, 0.5 * x_], [0.1, 0.2, 0.3]][int(rng.integers(5))]
+        G_ = rng.integers(-1, 2, 3)
+        if not G_.any():
+            G_[int(rng.integers(3))] = 1
+        q_out = np.array(tmpl)[rng.permutation(3)] + G_
         ddm = DerivativeOfDynamicalMatrix(dm)
         nontrivial = False
 
@@ -88,7 +104,7 @@ def run_case(c):
             dm.run(q)
             return np.array(dm.dynamical_matrix)
 
-        for q in qs:
+        for q in qs + [q_out]:
             ddm.run(q, lang=c["lang"])
             dD = np.array(ddm.d_dynamical_matrix)
             scale = max(np.abs(dD).max(), np.abs(D(q)).max())
@@ -142,7 +158,7 @@ def run_case(c):
                     ph2.nac_params = dict(ph.nac_params)
             else:
                 ph2 = ph
-            for q in qs[:3]:
+            for q in qs[:3] + [q_out]:
                 gv = np.array(ph2.get_group_velocity_at_q(q))
                 f0 = np.array(ph2.get_frequencies(q))
                 fmax = np.abs(f0).max()
@@ -164,6 +180,8 @@ def run_case(c):
                 e2 = np.abs(grads[1][ok] - gv[ok]).max()
                 gs = max(np.abs(gv[ok]).max(), fmax * np.linalg.norm(L, axis=1).max() * 1e-3)
                 obs["n_gv_" + mode] = obs.get("n_gv_" + mode, 0) + 1
+                if q is q_out:
+                    obs["n_gv_outside_first_zone" + ("_with_symmetry" if iso else "")] = obs.get("n_gv_outside_first_zone" + ("_with_symmetry" if iso else ""), 0) + 1
                 tol = 1e-6 if mode == "analytic" else 1e-4
                 est = float(np.abs(grads[0][ok] - grads[1][ok]).max())  # = 3 x the truncation error of the finer stencil
                 if e2 > tol * gs and e2 > est:
